@@ -598,6 +598,8 @@ class Surrogates(Cached):
         (N, n_time) = original_data.shape
         if surrogates.shape != (N, n_time):
             raise ValueError("original_data and surrogates differ in shape")
+        if n_bins < 1:
+            raise ValueError("n_bins must be positive")
         #  Calculate symbolic time series and histograms
         #  Calculate 2D histograms and mutual information
         #  mi[i,j] gives the mutual information between the ith original_data
